@@ -30,6 +30,7 @@ def setup_helper(kinds):
             elif kind == 'bytes':
                 args[name] = eng.fresh_bytes(st, name)
         return None, args
+    setup.kinds = dict(kinds)
     return setup
 
 
@@ -214,3 +215,62 @@ register(FnContract(
         Case('ok', 'return', lambda pre: t.TRUE, rkind=rk_int, model='adv'),
         Case('fails', 'raise', lambda pre: t.TRUE, exc='StreamError', path='path', model='adv'),
     ]))
+
+
+# ------------------------------------------------------------------------------------------------ evaluate (E5)
+class EvaluateContract(FnContract):
+    """evaluate(param, context) = param(context) if callable(param) else param.   At call sites the parameter model of
+    pyvc/interface.py is used (value of the declared kind, or KeyError/AttributeError on a missing key); the body is
+    verified against the same model."""
+
+    def use(self, eng, st, selfv, args, kws):
+        return eng.models.interface.eval_param(eng, args[0], args[1], st)
+
+
+def _eval_setup(eng, st, node, stream_model):
+    iface = eng.models.interface
+    iface.configure(params_total=False)
+    p = VParam('param', 'dyn', fresh('param', t.INT))
+    return None, {'param': p, 'context': iface.new_context(eng, st, 'context')}
+
+
+def _eval_ret(pre, post):
+    eng, p = post.eng, pre['param']
+    iface = eng.models.interface
+    H, D = pre.st.ghost['H'], pre.st.ghost['D']
+    c = pre.obj('context').addr
+    expect = t.ite(p.callable_t, t.app('ev_val', t.VAL, p.ident, H, D, c), eng.to_dyn(iface.param_const(eng, p, post.st), post.st))
+    return [('value-of-parameter', t.eq(eng.to_dyn(post.result, post.st), expect), ('C07', 'C05'))]
+
+
+register(EvaluateContract(
+    'construct.core:evaluate', setup=_eval_setup, tags=('C05', 'C06', 'C07'),
+    cases=[Case('value', 'return', lambda pre: t.TRUE, ensures=_eval_ret, rkind=rk_dyn),
+           Case('missing-key', 'raise', lambda pre: t.and_(pre['param'].callable_t, t.app('ev_raises', t.BOOL, pre['param'].ident, pre.st.ghost['H'], pre.st.ghost['D'], pre.obj('context').addr)),
+                exc=['KeyError', 'AttributeError'])]))
+
+
+# ------------------------------------------------------------------------------------------------ BytesIOWithOffsets.from_reading
+class FromReading(FnContract):
+    """substream over exactly the next `length` bytes whose tell() reports absolute offsets (C08)"""
+
+    def use(self, eng, st, selfv, args, kws):
+        from pyvc.contract import REGISTRY
+        stream, length, path = args
+        out = []
+        for s1, off in REGISTRY['construct.core:stream_tell'].use(eng, st, None, [stream, path], {}):
+            if isinstance(off, Raised):
+                out.append((s1, off))
+                continue
+            for s2, data in REGISTRY['construct.core:stream_read'].use(eng, s1, None, [stream, length, path], {}):
+                if isinstance(data, Raised):
+                    out.append((s2, data))
+                    continue
+                ov, _ = eng.as_int(off, s2)
+                o = s2.get(stream)
+                model = 'offsets'
+                out.append((s2, streams.new_bytesio(eng, s2, data, model=model, parent=stream, offset=ov)))
+        return out
+
+
+register(FromReading('construct.core:BytesIOWithOffsets.from_reading', cases=[], setup=None, tags=('C08',)))
